@@ -1051,7 +1051,7 @@ func init() {
 			if prop == "C11" {
 				return kernel.TierSpec{Runs: 4000, WallSeconds: 60, ShrinkSecs: 20, RunBudgetMs: 20000}
 			}
-			return kernel.TierSpec{Runs: 12000, WallSeconds: 60, ShrinkSecs: 20, RunBudgetMs: 20000}
+			return kernel.TierSpec{Runs: 60000, WallSeconds: 45, ShrinkSecs: 20, RunBudgetMs: 20000}
 		},
 		Rule: "each run = one seeded valid program (generator with ground truth, validated against xjs's lexer, goja and node) x EVERY single-token deletion, EVERY statement-separator removal and EVERY truncation offset (C11 adds seeded byte flips/inserts/deletes/duplications, double faults and random byte strings, x 4 parser modes); evaluations = fault cases (x modes for C11); distinct = distinct base program text; non-trivial = base program has at least 4 tokens",
 		Real:      []string{"lexer", "parser (all modes)", "ast", "compiler (all configurations, C11)", "sourcemap (through the compiler)"},
